@@ -635,6 +635,165 @@ def buffer_roots(repo: Repo, fi: FunctionInfo, du: DefUse, e: ast.AST, at: ast.A
     return {f"fresh@{getattr(b, 'lineno', 0)}:{getattr(b, 'col_offset', 0)}"}
 
 
+# ------------------------------------------------------------------------------------------------ group-by idioms
+def _def_of(du: DefUse, name: str, at: ast.AST):
+    ds = du.strong_reaching(name, at)
+    return ds[0] if len(ds) == 1 else None
+
+
+def _expand_unpacked(du: DefUse, e: ast.AST, at: ast.AST, depth: int = 5):
+    """Follow a name to its defining value; a name bound by tuple unpacking gives (value, index)."""
+    idx = None
+    cur = e
+    for _ in range(depth):
+        if isinstance(cur, ast.Name):
+            d = _def_of(du, cur.id, at)
+            if d is None or d.value is None:
+                break
+            if d.kind == "unpack" and d.unpack_index is not None:
+                return d.value, d.unpack_index, d.stmt
+            if d.kind == "assign":
+                cur, at = d.value, d.stmt
+                continue
+        break
+    return cur, idx, at
+
+
+def _is_sorted_view_of(du: DefUse, e: ast.AST, at: ast.AST, vec: str) -> Optional[bool]:
+    """Is `e` the vector `vec` in sorted order (vec[argsort(vec)], np.sort(vec), np.take(vec, argsort(vec)))?  False when it is
+    `vec` itself (unsorted); None when unknown."""
+    from .struct import call_name
+    v = expand_name(du, e, at)
+    if loc_name(v) == vec:
+        return False
+    if isinstance(v, ast.Call) and call_name(v) == "sort" and v.args and loc_name(expand_name(du, v.args[0], at)) == vec:
+        return True
+    idx = None
+    if isinstance(v, ast.Subscript) and loc_name(v.value) == vec:
+        idx = v.slice
+    elif isinstance(v, ast.Call) and call_name(v) == "take" and len(v.args) >= 2 and loc_name(v.args[0]) == vec:
+        idx = v.args[1]
+    if idx is not None:
+        o = expand_name(du, idx, at)
+        if isinstance(o, ast.Call) and call_name(o) == "argsort" and o.args and loc_name(expand_name(du, o.args[0], at)) == vec:
+            return True
+    return None
+
+
+def group_selector_verdict(du: DefUse, sel: ast.AST, at: ast.AST, vec: str) -> Tuple[str, str]:
+    """Does the row selector `sel` (as used at statement `at`) enumerate, over the enclosing loop, exactly the groups of equal
+    values of the vector `vec` (each group once, all its members)?  -> ("ok" | "bad" | "unknown", explanation).
+
+    Recognised forms (model table, numpy semantics):
+      A  for c in unique(vec): sel = (vec == c) | where(vec == c)[0] | flatnonzero(vec == c)
+      B  for sel in split(argsort(vec[, kind=..]), CUTS): CUTS must be the group starts *in the sorted vector*:
+         unique(<vec sorted>, return_index=True)[1][1:], cumsum(unique(vec, return_counts=True)[1])[:-1],
+         (where|flatnonzero)(diff(<vec sorted>))[0] + 1, searchsorted(<vec sorted>, unique(vec))[1:].
+         unique(vec, return_index=True) on the *unsorted* vector gives first occurrences in the original order: wrong cut points
+         unless every group is one contiguous ascending block."""
+    from .struct import call_name, kwarg
+    name = loc_name(sel)
+    if name is None:
+        return "unknown", f"selector `{src(sel)}` is not a name"
+    d = _def_of(du, name, at)
+    if d is None:
+        return "unknown", f"selector `{name}` has no single definition"
+    # ---- form A
+    if d.kind == "assign" and d.value is not None:
+        v = d.value
+        if isinstance(v, ast.Subscript) and isinstance(v.value, ast.Call) and call_name(v.value) == "where" and v.value.args:
+            v = v.value.args[0]
+        elif isinstance(v, ast.Call) and call_name(v) in ("flatnonzero",) and v.args:
+            v = v.args[0]
+        if isinstance(v, ast.Compare) and len(v.ops) == 1 and isinstance(v.ops[0], ast.Eq):
+            l, r = v.left, v.comparators[0]
+            for a, b in ((l, r), (r, l)):
+                if loc_name(a) == vec and isinstance(b, ast.Name):
+                    dc = _def_of(du, b.id, d.stmt)
+                    if dc is not None and dc.kind == "for":
+                        it = expand_name(du, dc.stmt.iter, dc.stmt)
+                        if isinstance(it, ast.Call) and call_name(it) == "unique" and it.args and loc_name(expand_name(du, it.args[0], dc.stmt)) == vec \
+                                and not it.keywords:
+                            return "ok", f"for {b.id} in unique({vec}): rows where {vec} == {b.id}"
+                        return "unknown", f"loop over `{src(dc.stmt.iter)}` is not unique({vec})"
+            return "bad", f"selector `{src(d.value)}` does not compare `{vec}` with the loop's group value"
+        if isinstance(v, ast.Compare) and len(v.ops) == 1 and any(loc_name(x) == vec for x in (v.left, v.comparators[0])):
+            other = v.comparators[0] if loc_name(v.left) == vec else v.left
+            dc = _def_of(du, other.id, d.stmt) if isinstance(other, ast.Name) else None
+            if dc is not None and dc.kind == "for":
+                return "bad", f"selector `{src(d.value)}` is not an equality test of `{vec}` against the group value: a row can fall into several groups"
+        return "unknown", f"selector definition `{src(d.value)[:80]}` not understood"
+    # ---- form B
+    if d.kind == "for":
+        it = expand_name(du, d.stmt.iter, d.stmt)
+        if isinstance(it, ast.Call) and call_name(it) in ("split", "array_split") and len(it.args) >= 2:
+            order = expand_name(du, it.args[0], d.stmt)
+            if not (isinstance(order, ast.Call) and call_name(order) == "argsort" and order.args and loc_name(expand_name(du, order.args[0], d.stmt)) == vec):
+                return "unknown", f"split() of `{src(order)[:60]}` - not argsort({vec})"
+            cuts = it.args[1]
+            cv, cidx, cat = _expand_unpacked(du, cuts, d.stmt)
+            # peel a trailing [1:] / [:-1]
+            peel = None
+            node = cv if cidx is None else cuts
+            node = expand_name(du, cuts, d.stmt) if cidx is None else cuts
+            if isinstance(node, ast.Subscript) and isinstance(node.slice, ast.Slice):
+                lo, hi = node.slice.lower, node.slice.upper
+                if lo is not None and const_value(lo) == (True, 1) and hi is None:
+                    peel = "drop-first"
+                elif lo is None and hi is not None and const_value(hi) == (True, -1):
+                    peel = "drop-last"
+                inner = node.value
+            else:
+                inner = node
+            iv, iidx, iat = _expand_unpacked(du, inner, d.stmt)
+            # + 1 around a diff form
+            plus1 = False
+            if isinstance(iv, ast.BinOp) and isinstance(iv.op, ast.Add) and const_value(iv.right) == (True, 1):
+                plus1, iv = True, iv.left
+                if isinstance(iv, ast.Subscript) and const_value(iv.slice) == (True, 0):
+                    iv = iv.value
+            if isinstance(iv, ast.Subscript) and isinstance(iv.value, ast.Call) and call_name(iv.value) == "unique" and iidx is None:
+                ok, k = const_value(iv.slice)
+                iidx, iv = (k if ok else None), iv.value
+            if isinstance(iv, ast.Call) and call_name(iv) == "unique" and iv.args:
+                ret_index = kwarg(iv, "return_index")
+                ret_counts = kwarg(iv, "return_counts")
+                if ret_index is not None and const_value(ret_index) == (True, True) and iidx == 1 and peel == "drop-first":
+                    sv = _is_sorted_view_of(du, iv.args[0], iat, vec)
+                    if sv is True:
+                        return "ok", "cut points = first index of each value in the sorted vector"
+                    if sv is False:
+                        return "bad", (f"the cut points `{src(cuts)}` come from np.unique({vec}, return_index=True) on the UNSORTED vector: those are first occurrences in the "
+                                       f"original order, not group boundaries of the sorted order - groups are wrong whenever a group is not one contiguous ascending block "
+                                       f"(e.g. interleaved shanks)")
+                    return "unknown", f"unique() of `{src(iv.args[0])}` - sortedness unknown"
+            if isinstance(iv, ast.Call) and call_name(iv) == "cumsum" and iv.args and peel == "drop-last":
+                cv2, cidx2, cat2 = _expand_unpacked(du, iv.args[0], iat)
+                if isinstance(cv2, ast.Subscript) and isinstance(cv2.value, ast.Call) and cidx2 is None:
+                    ok, k = const_value(cv2.slice)
+                    cidx2, cv2 = (k if ok else None), cv2.value
+                if isinstance(cv2, ast.Call) and call_name(cv2) == "unique" and cv2.args and kwarg(cv2, "return_counts") is not None and cidx2 == 1 \
+                        and kwarg(cv2, "return_index") is None and kwarg(cv2, "return_inverse") is None:
+                    base = expand_name(du, cv2.args[0], cat2)
+                    if loc_name(base) == vec or _is_sorted_view_of(du, cv2.args[0], cat2, vec):
+                        return "ok", "cut points = cumulative group sizes"
+            if plus1 and isinstance(iv, ast.Call) and call_name(iv) in ("where", "flatnonzero", "nonzero") and iv.args and peel is None:
+                t = iv.args[0]
+                if isinstance(t, ast.Compare):
+                    t = t.left
+                if isinstance(t, ast.Call) and call_name(t) == "diff" and t.args:
+                    sv = _is_sorted_view_of(du, t.args[0], iat, vec)
+                    if sv is True:
+                        return "ok", "cut points = positions after each change in the sorted vector"
+                    if sv is False:
+                        return "bad", f"the cut points `{src(cuts)}` are the value changes of the UNSORTED vector but split the sorted order"
+            return "unknown", f"cut points `{src(cuts)[:80]}` not understood"
+        if isinstance(it, ast.Call) and call_name(it) == "unique":
+            return "bad", f"rows are indexed by the group value `{name}` itself"
+        return "unknown", f"loop iterable `{src(it)[:80]}` not understood"
+    return "unknown", f"selector `{name}` is defined by {d.kind}"
+
+
 def rule_no_shared_mutation(ctx, rule_id: str, functions: Sequence[str], consequence: str):
     """Generic rule: the listed functions (and the private helpers they call that the pinned tree does not have) do not modify in place an
     array that is cached / shared between calls (result of a memoised function, or a view / row / dict entry of one)."""
